@@ -29,11 +29,22 @@ PROVED (model, all inputs):
   `#recv:e` followed by records of e's own transitions / eventless follow-ups only: macrosteps are never
   interleaved, each event is settled before the next is dequeued (unconditional: also when the budget
   cuts, a macrostep raises, or the machine completes);
-* `fifo_exactly_once` (sync), `fifo_exactly_once_async_clean`, `fifo_exactly_once_queued` — when nothing cuts
+* `fifo_exactly_once_clean` (sync), `fifo_exactly_once_async_clean`, `fifo_exactly_once_queued` — when nothing cuts
   the drain short (`DrainClean` / `AsyncClean`: the bound `maxIterations` is not reached, the machine
   keeps running, sync: no macrostep raises an error; these are the side conditions C13 / C10 / C07 govern)
   the events received are EXACTLY the accepted ones, in order, each once, followed by the raised events
   in raise order, and nothing is left queued;
+* sync, events QUEUED WHEN A DRAIN STARTS (accepted from outside by `send` / `send_events`, or left over by a
+  call that raised), with NO side condition on the bound (repairs F10: `drainBudget` — the budget of one
+  drain is `maxIterations` + the number of events queued when it starts, so those never count):
+  `sync_external_never_dropped` — the first events a drain receives ARE those events, in order, none
+  skipped, none twice; a drain that returns "running" without raising has received them ALL; a drain that
+  raises (a failing macrostep aborts the sync drain) leaves the ones not yet received queued, in order, at
+  the head of the queue; `external_exactly_once_sync` — the same for `_process_event_queue` itself
+  (`drainFlagged`), and what a cut discards was enqueued WHILE draining; `fifo_exactly_once` — a burst
+  `send_events(es)` of ANY length to an idle running interpreter: every event of `es` is received exactly
+  once, in order, when the call returns with the interpreter still "running" (in general a prefix of `es`
+  is: the rest is still queued if the call raised, dropped by the status gate if the machine completed);
 * async, EXTERNAL events, with NO side condition on the bound (repairs F30): `async_external_never_dropped`
   — an external event the run loop dequeues is always processed (`#recv:` written, macrostep run), chain
   breaker tripped or not; `external_exactly_once_async` — for every fuel, counter and machine the external
@@ -48,12 +59,12 @@ PROVED (model, all inputs):
 * `send_is_sendMany_singleton`, `sync_sendMany_is_one_drain`, and by example `sendMany_differs_from_sends`:
   `send_events([a, b])` queues both and drains once, so what `a` raises runs AFTER `b`, whereas
   `send(a); send(b)` runs it before `b` (both engines at the model's quiescent observation points);
-* the counterexample `sync_burst_over_bound_loses_events` (F10: the sync drain budget counts every
-  dequeued event, so of a burst longer than `maxIterations` only `maxIterations` events are received and
-  the rest is discarded — accepted, never processed, no longer queued) with a concrete run; the former
-  async counterexample (F30: the chain breaker dropped the event in hand whatever its origin) is gone:
-  `async_breaker_drops_only_self_raised` says what the breaker does now, with the old witness run
-  showing the external event received;
+* the former counterexamples are gone: `sync_burst_over_bound_loses_events` (F10: the sync drain budget
+  counted every dequeued event, so of a burst longer than `maxIterations` only `maxIterations` events were
+  received and the rest discarded) is replaced by `sync_external_never_dropped` /
+  `external_exactly_once_sync` / `sync_cut_discards_only_raised`, the old witness run now showing all three
+  events received; the async one (F30: the chain breaker dropped the event in hand whatever its origin) by
+  `async_breaker_drops_only_self_raised`, with the old witness run showing the external event received;
 * `SyncFlag` (two threads executing `append; if flag: return; flag := True; drain; flag := False` at
   statement granularity): `mutual_exclusion_fails` (test-then-set: a schedule puts both threads inside
   the drain — the formal counterpart of F18), `mutual_exclusion_atomic` (with test-and-set atomic: for
@@ -83,7 +94,8 @@ theorem send_appends_at_tail (es : List Ev) (s : St) :
     (pushAll es s).queue = s.queue ++ es.map (fun e => (⟨e, false⟩ : QEv)) := rfl
 
 theorem sync_sendMany_is_one_drain (m : Machine) (u : UEnv) (es : List Ev) (l : LSt) (h : l.st.status = "running") :
-    opSendMany .sync m u es l = { l with st := drainLoop m u m.maxIterations (pushAll es l.st) } := by
+    opSendMany .sync m u es l =
+      { l with st := drainLoop m u (drainBudget m (pushAll es l.st)) (pushAll es l.st) } := by
   have hg : ¬ refuses (sendGate .sync) l.st.status = true := by
     intro hh; exact (syncSendGate_spec _).1 hh h
   unfold opSendMany
@@ -206,16 +218,24 @@ theorem fifo_exactly_once_queued (m : Machine) (u : UEnv) (budget : Nat) (s : St
     (drainLoop m u budget s).queue = [] :=
   ⟨drain_fifo m u budget s h, drain_clean_queue_nil m u budget s h⟩
 
-/-- **FIFO, exactly once** (sync `send_events(es)` / `send(e)` on an idle running interpreter): the events
-    received by this call are `es` — all of them, in order, each once — followed by what their macrosteps
-    raised; the trace shows exactly these macrosteps, one after the other; nothing is left queued -/
-theorem fifo_exactly_once (m : Machine) (u : UEnv) (es : List Ev) (l : LSt) (hrun : l.st.status = "running")
-    (hq : l.st.queue = []) (hclean : DrainClean m u m.maxIterations (pushAll es l.st)) :
-    drainLog m u m.maxIterations (pushAll es l.st) = es ++ drainRaised m u m.maxIterations (pushAll es l.st) ∧
+/-- the budget of one `_process_event_queue()`: `limit + len(self._event_queue)`, computed when the drain
+    starts — AFTER `send()` / `send_events()` appended what they accepted -/
+theorem sync_budget_counts_only_new (m : Machine) (u : UEnv) (s : St) :
+    drainFlagged m u s = drainLoop m u (m.maxIterations + s.queue.length) s ∧
+    drainBudget m s = m.maxIterations + s.queue.length := ⟨rfl, rfl⟩
+
+/-- **FIFO, exactly once, everything** (sync `send_events(es)` / `send(e)` on an idle running interpreter,
+    nothing cuts the drain short): the events received by this call are `es` — all of them, in order, each
+    once — followed by what their macrosteps raised; the trace shows exactly these macrosteps, one after
+    the other; nothing is left queued -/
+theorem fifo_exactly_once_clean (m : Machine) (u : UEnv) (es : List Ev) (l : LSt) (hrun : l.st.status = "running")
+    (hq : l.st.queue = []) (hclean : DrainClean m u (drainBudget m (pushAll es l.st)) (pushAll es l.st)) :
+    drainLog m u (drainBudget m (pushAll es l.st)) (pushAll es l.st) =
+      es ++ drainRaised m u (drainBudget m (pushAll es l.st)) (pushAll es l.st) ∧
     (opSendMany .sync m u es l).st.chron =
-      l.st.chron ++ (drainSegs m u m.maxIterations (pushAll es l.st)).flatMap segRecords ∧
-    (drainSegs m u m.maxIterations (pushAll es l.st)).map (·.1) =
-      es ++ drainRaised m u m.maxIterations (pushAll es l.st) ∧
+      l.st.chron ++ (drainSegs m u (drainBudget m (pushAll es l.st)) (pushAll es l.st)).flatMap segRecords ∧
+    (drainSegs m u (drainBudget m (pushAll es l.st)) (pushAll es l.st)).map (·.1) =
+      es ++ drainRaised m u (drainBudget m (pushAll es l.st)) (pushAll es l.st) ∧
     (opSendMany .sync m u es l).st.queue = [] := by
   have hlog := drain_fifo m u _ _ hclean
   have hqq : (pushAll es l.st).queue.map (·.ev) = es := by
@@ -225,6 +245,103 @@ theorem fifo_exactly_once (m : Machine) (u : UEnv) (es : List Ev) (l : LSt) (hru
   refine ⟨hlog, ?_, ?_, drain_clean_queue_nil m u _ _ hclean⟩
   · exact drain_chron m u _ _
   · rw [drainSegs_events]; exact hlog
+
+/-- **the events queued when a sync drain starts are never dropped by the bound** (repairs F10; the sync
+    counterpart of `async_external_never_dropped`). `init` — a prefix of the queue: the events queued when
+    the drain started, `more` whatever was enqueued since — and a budget that covers `init` (the code's
+    budget, `drainBudget`, is `maxIterations` + the length of the WHOLE queue at the start). Then
+    1. the first events the drain receives (hands to `on_event_received` / `_process_event`, `drainLog`) are
+       the events of `init`, in queue order, none skipped, none twice — as many as it receives at all;
+    2. if the drain returns with the interpreter still "running" and raised nothing, it received ALL of `init`;
+    3. if the drain raised (a macrostep failed: the sync engine aborts the drain and re-raises), the events
+       of `init` not yet received are still queued, in order, at the head of the queue — the next `send`
+       processes them first.
+    The one remaining way out is the status gate: the machine completed or was stopped (C10), and the drain
+    drops what is queued exactly as `send()` drops later events. No hypothesis on the machine, on user code,
+    on how many events there are, or on what they raise. -/
+theorem sync_external_never_dropped (m : Machine) (u : UEnv) (init more : List QEv) (budget : Nat) (s : St)
+    (hq : s.queue = init ++ more) (hB : init.length ≤ budget) :
+    (drainLog m u budget s).take init.length = (init.map (·.ev)).take (drainLog m u budget s).length ∧
+    ((drainLoop m u budget s).err = none → (drainLoop m u budget s).status = "running" →
+      (drainLog m u budget s).take init.length = init.map (·.ev)) ∧
+    (s.status = "running" → (drainLoop m u budget s).err ≠ none →
+      init.drop (drainLog m u budget s).length <+: (drainLoop m u budget s).queue) := by
+  obtain ⟨h1, h2, h3⟩ := drain_initial m u init budget s more hq hB
+  refine ⟨h1, fun he hr => ?_, h3⟩
+  rw [h1, List.take_of_length_le]
+  rw [List.length_map]; exact h2 he hr
+
+/-- **events queued when `_process_event_queue()` starts: exactly once, in order — for every machine, user
+    code and queue length** (the sync counterpart of `external_exactly_once_async`). For the drain the code
+    runs (`drainFlagged`: budget `maxIterations` + queue length): the received events begin with the queued
+    ones, in order (1); all of them are received, and nothing is left queued, when the drain returns
+    "running" without raising (2); after a drain that raised the rest is still queued, in order, at the
+    head (3); and a drain that was CUT (budget exhausted with events still queued) had received everything
+    that was queued at its start plus `maxIterations` more — what the cut discards was enqueued while
+    draining (4). -/
+theorem external_exactly_once_sync (m : Machine) (u : UEnv) (s : St) :
+    (drainLog m u (drainBudget m s) s).take s.queue.length =
+      (s.queue.map (·.ev)).take (drainLog m u (drainBudget m s) s).length ∧
+    ((drainFlagged m u s).err = none → (drainFlagged m u s).status = "running" →
+      (drainLog m u (drainBudget m s) s).take s.queue.length = s.queue.map (·.ev) ∧ (drainFlagged m u s).queue = []) ∧
+    (s.status = "running" → (drainFlagged m u s).err ≠ none →
+      s.queue.drop (drainLog m u (drainBudget m s) s).length <+: (drainFlagged m u s).queue) ∧
+    (Term.drainCut m u (drainBudget m s) s = true →
+      (drainLog m u (drainBudget m s) s).length = m.maxIterations + s.queue.length ∧
+      (drainLog m u (drainBudget m s) s).take s.queue.length = s.queue.map (·.ev)) := by
+  have hB : s.queue.length ≤ drainBudget m s := by unfold drainBudget; omega
+  obtain ⟨h1, h2, h3⟩ := sync_external_never_dropped m u s.queue [] (drainBudget m s) s (by simp) hB
+  refine ⟨h1, fun he hr => ⟨h2 he hr, drainLoop_queue_nil m u _ _ he⟩, h3, fun hc => ?_⟩
+  have hl := drainCut_steps m u _ s hc
+  refine ⟨hl, ?_⟩
+  rw [h1, List.take_of_length_le]
+  rw [List.length_map, hl]; exact hB
+
+/-- **what a cut of the sync drain discards was enqueued while draining**: a drain is cut only if its
+    macrosteps enqueued MORE than `maxIterations` events (`drainRaised`: what the macrosteps of this drain
+    append to the queue) — the events queued at its start do not count -/
+theorem sync_cut_discards_only_raised (m : Machine) (u : UEnv) (s : St)
+    (hc : Term.drainCut m u (drainBudget m s) s = true) :
+    m.maxIterations < (drainRaised m u (drainBudget m s) s).length := by
+  by_cases h : m.maxIterations < (drainRaised m u (drainBudget m s) s).length
+  · exact h
+  · have hb : drainBudget m s = m.maxIterations + s.queue.length := rfl
+    rw [drainCut_false_of_raised m u _ s (by omega)] at hc
+    exact absurd hc (by simp)
+
+/-- **FIFO, exactly once** (sync `send_events(es)` / `send(e)` on an idle running interpreter; NO hypothesis
+    on the bound, on the length of `es` or on what the events raise — the sync counterpart of
+    `fifo_exactly_once_async`). The events received by this call begin with events of `es`, in order, none
+    skipped, none twice; if the call returns with the interpreter "running" and raised nothing they are ALL
+    received — exactly `es` first, each once, in order — and nothing is left queued; if the call raised (a
+    macrostep failed; C07) the events of `es` not yet received are still queued, in order, at the head.
+    (Otherwise the machine completed or was stopped — C10: the status gate drops the rest.) The trace
+    shows exactly the macrosteps of the received events, one after the other. -/
+theorem fifo_exactly_once (m : Machine) (u : UEnv) (es : List Ev) (l : LSt) (hrun : l.st.status = "running")
+    (hq : l.st.queue = []) :
+    (drainLog m u (drainBudget m (pushAll es l.st)) (pushAll es l.st)).take es.length =
+      es.take (drainLog m u (drainBudget m (pushAll es l.st)) (pushAll es l.st)).length ∧
+    ((opSendMany .sync m u es l).st.err = none → (opSendMany .sync m u es l).st.status = "running" →
+      (drainLog m u (drainBudget m (pushAll es l.st)) (pushAll es l.st)).take es.length = es ∧
+      (opSendMany .sync m u es l).st.queue = []) ∧
+    ((opSendMany .sync m u es l).st.err ≠ none →
+      (es.drop (drainLog m u (drainBudget m (pushAll es l.st)) (pushAll es l.st)).length).map
+        (fun e => (⟨e, false⟩ : QEv)) <+: (opSendMany .sync m u es l).st.queue) ∧
+    (opSendMany .sync m u es l).st.chron =
+      l.st.chron ++ (drainSegs m u (drainBudget m (pushAll es l.st)) (pushAll es l.st)).flatMap segRecords ∧
+    (drainSegs m u (drainBudget m (pushAll es l.st)) (pushAll es l.st)).map (·.1) =
+      drainLog m u (drainBudget m (pushAll es l.st)) (pushAll es l.st) := by
+  have hqq : (pushAll es l.st).queue = es.map (fun e => (⟨e, false⟩ : QEv)) := by simp [pushAll, hq]
+  have hev : (pushAll es l.st).queue.map (·.ev) = es := by
+    rw [hqq]; simp [List.map_map, Function.comp_def]
+  have hlen : (pushAll es l.st).queue.length = es.length := by rw [hqq]; simp
+  obtain ⟨h1, h2, h3, _⟩ := external_exactly_once_sync m u (pushAll es l.st)
+  rw [hev, hlen] at h1 h2
+  rw [sync_sendMany_is_one_drain m u es l hrun]
+  refine ⟨h1, h2, fun he => ?_, drain_chron m u _ _, drainSegs_events m u _ _⟩
+  have := h3 hrun he
+  rw [hqq, ← List.map_drop] at this
+  exact this
 
 /-- **FIFO, exactly once, everything** (async, interpreter with its run loop attached, nothing cuts the
     loop short): the accepted events, then the raised ones, each once, in order -/
@@ -332,23 +449,7 @@ theorem async_start_settles_before_loop (m : Machine) (u : UEnv) (l : LSt) (h0 :
     · obtain ⟨⟨a, ha, hf, _⟩, _⟩ := hg; exact ⟨a, ha, hf⟩
     · obtain ⟨⟨a, ha, hf, _⟩, _⟩ := hg; exact ⟨a, ha, hf⟩
 
-/-! ## 5. the sync drain budget CAN lose events (finding F10); the async chain breaker cannot (F30, repaired) -/
-
-/-- **F10** — the sync drain budget counts EVERY dequeued event. Of a burst that makes the queue longer
-    than `maxIterations`, at most `maxIterations` events are received by the call (strictly fewer than
-    were accepted), and unless the call raised NOTHING stays queued: the remaining accepted events are
-    gone for good. (No hypothesis on the machine: it need not raise anything, nor have any transition.) -/
-theorem sync_burst_over_bound_loses_events (m : Machine) (u : UEnv) (es : List Ev) (l : LSt)
-    (hrun : l.st.status = "running") (hlen : m.maxIterations < l.st.queue.length + es.length) :
-    (drainLog m u m.maxIterations (pushAll es l.st)).length ≤ m.maxIterations ∧
-    (drainLog m u m.maxIterations (pushAll es l.st)).length < (pushAll es l.st).queue.length ∧
-    ((opSendMany .sync m u es l).st.err = none → (opSendMany .sync m u es l).st.queue = []) := by
-  have h1 := drainLog_length_le m u m.maxIterations (pushAll es l.st)
-  refine ⟨h1, ?_, ?_⟩
-  · have : (pushAll es l.st).queue.length = l.st.queue.length + es.length := by simp [pushAll]
-    omega
-  · rw [sync_sendMany_is_one_drain m u es l hrun]
-    exact drainLoop_queue_nil m u _ _
+/-! ## 5. what the bounds do to events: neither loses an event sent from outside (F10, F30: both repaired) -/
 
 /-- **what the async chain breaker does** (after the repair of F30; the former counterexample
     `async_breaker_drops_any_event` no longer holds): when it trips (`_raise_depth > maxIterations`) the
@@ -405,13 +506,33 @@ def tr0 (l : LSt) : List String := l.st.trace.reverse
 end Ex
 open Ex
 
-/-- F10, concretely (replay `findings/F10_sync_burst_over_bound.json`): three `B`s, bound 2 — two are
-    received, the third is gone, the interpreter is running with an empty queue and no error -/
+/-- the former F10 witness (replay `findings/F10_sync_burst_over_bound.json`), REPAIRED outcome: three `B`s,
+    bound 2 — all three are received (before the repair: two, the third was gone); the interpreter is
+    running with an empty queue and no error. The budget of this drain is 2 + 3. -/
 example : (tr0 (opSendMany .sync burstM exB [.user "B", .user "B", .user "B"] (started .sync burstM)),
      (opSendMany .sync burstM exB [.user "B", .user "B", .user "B"] (started .sync burstM)).st.queue.length,
      (opSendMany .sync burstM exB [.user "B", .user "B", .user "B"] (started .sync burstM)).st.status,
      (opSendMany .sync burstM exB [.user "B", .user "B", .user "B"] (started .sync burstM)).st.err.isSome) =
-      (["#recv:B", "tB@B", "#t:m,m.a", "#recv:B", "tB@B", "#t:m,m.a"], 0, "running", false) := by decide
+      (["#recv:B", "tB@B", "#t:m,m.a", "#recv:B", "tB@B", "#t:m,m.a", "#recv:B", "tB@B", "#t:m,m.a"],
+       0, "running", false) := by decide
+example : drainBudget burstM (pushAll [.user "B", .user "B", .user "B"] (started .sync burstM).st) = 5 := by decide
+/-- … `fifo_exactly_once` at work on it: all three accepted events received, in order, nothing cut -/
+example : (drainLog burstM exB (drainBudget burstM (pushAll [.user "B", .user "B", .user "B"] (started .sync burstM).st))
+      (pushAll [.user "B", .user "B", .user "B"] (started .sync burstM).st),
+    Term.drainCut burstM exB (drainBudget burstM (pushAll [.user "B", .user "B", .user "B"] (started .sync burstM).st))
+      (pushAll [.user "B", .user "B", .user "B"] (started .sync burstM).st)) =
+    ([.user "B", .user "B", .user "B"], false) := by decide
+/-- … and a burst that IS cut: `A A A`, bound 2 — each `A` raises one `R`, three events enqueued while
+    draining, more than the bound: the budget 2 + 3 is exhausted after `A A A R R`; all three accepted events
+    were received, in order; what is discarded is the third `R`, enqueued during the drain
+    (`external_exactly_once_sync` (4), `sync_cut_discards_only_raised`) -/
+example : (drainLog burstM exB (drainBudget burstM (pushAll [.user "A", .user "A", .user "A"] (started .sync burstM).st))
+      (pushAll [.user "A", .user "A", .user "A"] (started .sync burstM).st),
+    Term.drainCut burstM exB (drainBudget burstM (pushAll [.user "A", .user "A", .user "A"] (started .sync burstM).st))
+      (pushAll [.user "A", .user "A", .user "A"] (started .sync burstM).st),
+    (drainRaised burstM exB (drainBudget burstM (pushAll [.user "A", .user "A", .user "A"] (started .sync burstM).st))
+      (pushAll [.user "A", .user "A", .user "A"] (started .sync burstM).st)).length) =
+    ([.user "A", .user "A", .user "A", .user "R", .user "R"], true, 3) := by decide
 
 /-- the former F30 witness (replay `findings/F30_async_chain_breaker_drops_external.json`), REPAIRED outcome:
     `A A A B`, bound 2 — each `A` raises one harmless `R`; the depth counter is not reset while an `R` is
@@ -431,7 +552,7 @@ example : (Term.extOf (asyncLogQ burstM exB (asyncFuel burstM)
 example : (started .async burstM).loop = true := by decide
 
 /-- … with room the same kind of burst is received completely, in order, and the raised events after it
-    (`fifo_exactly_once` / `fifo_exactly_once_async_clean` at work), the same in both engines … -/
+    (`fifo_exactly_once_clean` / `fifo_exactly_once_async_clean` at work), the same in both engines … -/
 example : tr0 (opSendMany .sync roomyM exB [.user "A", .user "A", .user "B"] (started .sync roomyM)) =
     ["#recv:A", "tA@A", "#t:m,m.a", "#recv:A", "tA@A", "#t:m,m.a", "#recv:B", "tB@B", "#t:m,m.a",
      "#recv:R", "tR@R", "#t:m,m.a", "#recv:R", "tR@R", "#t:m,m.a"] := by decide
@@ -439,23 +560,28 @@ example : tr0 (opSendMany .async roomyM exB [.user "A", .user "A", .user "B"] (s
     ["#recv:A", "tA@A", "#t:m,m.a", "#recv:A", "tA@A", "#t:m,m.a", "#recv:B", "tB@B", "#t:m,m.a",
      "#recv:R", "tR@R", "#t:m,m.a", "#recv:R", "tR@R", "#t:m,m.a"] := by decide
 
-/-- the hypotheses of `fifo_exactly_once` / `fifo_exactly_once_async_clean` hold of these runs (the theorems
-    are not vacuous), and they fail of the F10 run / the breaker run above — that is exactly what
-    `DrainClean` / `AsyncClean` say (in the breaker run the raised `R`s are purged, so "everything raised
-    is received" fails; the EXTERNAL events are all received nonetheless) -/
-example : DrainClean roomyM exB roomyM.maxIterations
+/-- the hypotheses of `fifo_exactly_once_clean` / `fifo_exactly_once_async_clean` hold of these runs (the theorems
+    are not vacuous) — also of the former F10 run —, and they fail of the cut run / the breaker run above —
+    that is exactly what `DrainClean` / `AsyncClean` say (a raised `R` is discarded / the raised `R`s are
+    purged, so "everything raised is received" fails; the EXTERNAL events are all received nonetheless) -/
+example : DrainClean roomyM exB (drainBudget roomyM (pushAll [.user "A", .user "A", .user "B"] (started .sync roomyM).st))
     (pushAll [.user "A", .user "A", .user "B"] (started .sync roomyM).st) := by decide
+example : DrainClean burstM exB (drainBudget burstM (pushAll [.user "B", .user "B", .user "B"] (started .sync burstM).st))
+    (pushAll [.user "B", .user "B", .user "B"] (started .sync burstM).st) := by decide
 example : AsyncClean roomyM exB (asyncFuel roomyM)
     (pushAll [.user "A", .user "A", .user "B"] (started .async roomyM).st) := by decide
-example : ¬ DrainClean burstM exB burstM.maxIterations
-    (pushAll [.user "B", .user "B", .user "B"] (started .sync burstM).st) := by decide
+example : ¬ DrainClean burstM exB (drainBudget burstM (pushAll [.user "A", .user "A", .user "A"] (started .sync burstM).st))
+    (pushAll [.user "A", .user "A", .user "A"] (started .sync burstM).st) := by decide
 example : ¬ AsyncClean burstM exB (asyncFuel burstM)
     (pushAll [.user "A", .user "A", .user "A", .user "B"] (started .async burstM).st) := by decide
-example : drainLog roomyM exB roomyM.maxIterations (pushAll [.user "A", .user "A", .user "B"] (started .sync roomyM).st) =
+example : drainLog roomyM exB (drainBudget roomyM (pushAll [.user "A", .user "A", .user "B"] (started .sync roomyM).st))
+      (pushAll [.user "A", .user "A", .user "B"] (started .sync roomyM).st) =
     [.user "A", .user "A", .user "B", .user "R", .user "R"] := by decide
 
 /-- … and `send_events([A, B])` is NOT `send(A); send(B)`: the burst is queued as a whole, so the `R` that
-    `A` raises waits behind `B`; sent one by one, `R` is handled before `B` is even accepted -/
+    `A` raises waits behind `B`; sent one by one, `R` is handled before `B` is even accepted. (Unchanged by
+    the repair of F10: an ordering fact about ONE drain versus two; `roomyM` reaches no bound under either
+    budget — 10 before, 10 + 2 resp. 10 + 1 now.) -/
 theorem sendMany_differs_from_sends :
     tr0 (opSendMany .sync roomyM exB [.user "A", .user "B"] (started .sync roomyM)) =
       ["#recv:A", "tA@A", "#t:m,m.a", "#recv:B", "tB@B", "#t:m,m.a", "#recv:R", "tR@R", "#t:m,m.a"] ∧
